@@ -12,7 +12,7 @@ from vf.encode import encode_file
 from vf.expect import expected_content
 from vf.observe import compare_structure, compare_data
 from vf.files import scratch_dir
-from vf.model import split_path
+from vf.model import split_path, tsize
 from props.C02 import history
 from props.C05 import _to_vals
 
@@ -75,9 +75,23 @@ def check(case, rec):
     else:
         phys = fs
     ex = expected_content(fs)
-    data, index, lay = encode_file(phys, with_index=True)
     truncated = False
-    if case.get('torn') is not None and phys['segments']:
+    short_mid = case.get('short_mid')
+    if short_mid is not None and len(phys['segments']) >= 2:
+        # a segment that is NOT the last one lost the tail of its final chunk (its lead-in states the shortened size) and
+        # further segments follow: no model for the content, with/without index must still agree
+        k = short_mid[0] % (len(phys['segments']) - 1)
+        seg = phys['segments'][k]
+        size = sum(n * tsize(t) for (_p, t, n) in seg.get('active') or [] if t != 'str') * seg.get('nchunks', 0)
+        if size > 1 and not any(t == 'str' for (_p, t, _n) in seg.get('active') or []) and not seg.get('marker'):
+            phys = {'segments': [dict(sg, trim_raw=1 + short_mid[1] % (size - 1)) if i == k else sg
+                                 for i, sg in enumerate(phys['segments'])]}
+            truncated = True
+            rec.label('short_final_chunk_in_middle_segment')
+    data, index, lay = encode_file(phys, with_index=True)
+    if truncated:
+        pass
+    elif case.get('torn') is not None and phys['segments']:
         # a further segment was being written when the writer died: only some bytes of its lead-in / metadata made it to
         # the data file; the index lists the complete segments only. Content = the complete segments.
         from vf.encode import encode_segment
@@ -171,7 +185,9 @@ def check(case, rec):
 def cases_c01(draw, **kw):
     fs = draw(S.file_spec(**kw))
     return {'fs': fs, 'picks': None, 'cut': draw(st.one_of(st.none(), st.none(), st.integers(0, 10 ** 6))),
-            'torn': draw(st.one_of(st.none(), st.none(), st.none(), st.integers(0, 10 ** 6)))}
+            'torn': draw(st.one_of(st.none(), st.none(), st.none(), st.integers(0, 10 ** 6))),
+            'short_mid': draw(st.one_of(st.none(), st.none(), st.none(),
+                                        st.tuples(st.integers(0, 100), st.integers(0, 10 ** 6)).map(list)))}
 
 
 @st.composite
